@@ -15,6 +15,10 @@ CHECKS = {
          "Tail loops over every chain of <=2 tail-position wrappers x 5 call forms x 3 recursion kinds x 3 definers (longer chains sampled) are run for several iteration counts while a host builtin samples the physical stack each turn (must not grow) and a source hook inspects every elided frame (terminal, never TROBlock); loops through handler-bind / ignore-errors / load-string must keep their frames; generated programs are compared across elimination on, off (dormant debugger) and profiler.",
          "Trusts the dormant-debugger configuration as 'elimination off'; twin pairs whose elimination-off run hits a stack/step limit are not judged; tail positions reached through builtins outside the listed wrappers are not covered.",
          "DESIGN.md 4/C02"),
+ "C04": ("fault_enumeration", "twin execution (budget n vs unlimited, cancellation at step k vs unlimited) over every n/k of small programs + hook assertions at every step, push and eval entry",
+         "For probe-instrumented programs the unlimited run under a counting context gives N and a step-stamped effect trace; every budget n in 1..N+2 (every n for N<=400) and every cancellation index k must reproduce exactly that trace cut at n (k-1), end with step-limit-exceeded / context-cancelled unless a swallowing form intercepts, and leave outcomes identical for n>=N; budgets refill per top-level evaluation; physical height, eval nesting, tail-iteration and macro-expansion limits are enumerated 3..40 around the recursion depth with hook assertions that the stack never exceeds the maximum and evaluation never proceeds above the nesting maximum, the error is catchable and the runtime usable afterwards; empty dotimes and a pending time:sleep stop on cancellation.",
+         "Step stamps come from Runtime.Steps() read inside a host probe builtin; with a swallowing form only events within the budget are compared; tail/macro bounds are judged with one unit of slack; the sleep assertion uses a 20 s wall-clock margin on a 40 s sleep.",
+         "DESIGN.md 4/C04"),
  "C05": ("fault_enumeration", "invariant monitor at quiescence (after every entry point returns) + twin-runtime replay of completed effects, under injected faults",
          "Histories of 12-40 top-level evaluations in one runtime through all 15 entry points with 18 fault kinds (errors, every limit, step budget exhausted / context cancelled at an enumerated step index, host panics in five positions, errors in handlers, in-package then failure in a nested load); after every return the stack, pending conditions, evaluator nesting, entry depth, current package and raw evaluation context (hook accessors) are asserted, and a probe program must equal a twin runtime that replays a prefix of the step's effects consistent with the completion probes.",
          "Effects are atomic statements wrapped in a completion probe; the twin is driven fault-free through LoadString; unexported state is read through build-tag accessors in lisp/verif_on.go.",
